@@ -511,6 +511,8 @@ impl Check for C15 {
                     };
                     let gen = if origin_i == 0 && rng.chance(1, 60) { 6 } else { gen }; // > 1024 tiny valid messages
                     let gen = if origin_i == 0 && rng.chance(1, 8) { 8 } else { gen }; // 10-200 tiny valid messages under a small window
+                    let gen = if origin_i == 0 && !server && rng.chance(1, 4) { 9 } else { gen }; // workflow traffic for a client
+                    let gen = if origin_i == 0 && server && rng.chance(1, 4) { 10 } else { gen }; // workflow traffic for a server
                     let gen = if origin_i == 0 && rng.chance(1, 300) { 7 } else { gen }; // one message in > 65,536 chunks
                     let mut b = c03::gen_stream_for_c15(gen, rng, &mut enc, hint);
                     if origin_i == 0 && rng.coin() {
